@@ -22,9 +22,9 @@ import (
 // connection after replying.
 
 type c48Case struct {
-	ID     string `json:"id"`
-	Script string `json:"script"` // X-Vs value
-	Method string `json:"method"`
+	ID       string `json:"id"`
+	Script   string `json:"script"` // X-Vs value
+	Method   string `json:"method"`
 	Frontend string `json:"frontend,omitempty"` // "" = HTTP/1.1, "h2" = HTTP/2 over TLS
 }
 
